@@ -155,4 +155,15 @@ TEXT = {
                 "are not under contract (assumed summaries nj, normalized). Termination of the recursive encoder is not proved.",
         "technique": "contract-based deductive verification: own VC generator over the real source + z3/cvc5",
     },
+    "C17": {
+        "level": "DefaultCodec.PicklePartitionStrategy.store (the real source, both loops with invariants, any number of keys) is proved to write the overlay index: every own key of the partition with a fresh, "
+                 "non-inherited entry (type = from_object of the value the partition returns, content key = what the codec stored for it, under '<override>/<key>' when an override is given), every parent "
+                 "key that is not overridden inherited with the parent's type and content key and from_parent = True, nothing else; parent entries are referenced from the data source the parent was written to; "
+                 "a stored partition remembers its output keys and the data source they were written to (so it can later be a merge parent), and storing never re-points the partition's own data source "
+                 "(an on-disk partition keeps reading its staged values). get / list_keys of InMemoryPartition, OnDiskPartition and the loaded PicklePartition are proved to obey the overlay law: own value if "
+                 "the key is own, else the parent's; list_keys = sorted, duplicate-free union of own and (when requested) parent keys, list_keys(False) = own (resp. non-inherited) keys.",
+        "note": "Partial: the index's JSON (de)serialisation (_serialize_index / _deserialize_index) and PicklePartition.__init__ are assumed to carry the entries unchanged; pickle of values is assumed; the parent "
+                "chain is handled by induction on the parent link (a parent is summarised by parent_has / parent_value). One genuine defect found by these contracts was repaired in /repo (D8).",
+        "technique": "contract-based deductive verification: own VC generator over the real source + z3/cvc5",
+    },
 }
